@@ -41,6 +41,15 @@ func runXor(tier string, shard, shards int, rep *SeqReport) {
 		func(i int) (byte, byte, byte) { return byte(i*7 + 1), byte(i*13 + 5), 0xEE },
 		func(i int) (byte, byte, byte) { return 0xFF, byte(i), 0x00 },
 		func(i int) (byte, byte, byte) { return byte(0x80 >> (i % 8)), 0xAA, 0x55 },
+		// operands with zero / all-ones words at the head, the tail and throughout (content-dependent shortcuts)
+		func(i int) (byte, byte, byte) { return byte(i*5 + 9), 0x00, 0x77 },
+		func(i int) (byte, byte, byte) { return 0x00, byte(i*3 + 1), 0x77 },
+		func(i int) (byte, byte, byte) {
+			if (i/8)%2 == 0 {
+				return byte(i + 1), 0x00, 0x33
+			}
+			return 0xFF, byte(i * 9), 0x33
+		},
 	}
 	unit := 0
 	for _, im := range impls {
@@ -181,5 +190,5 @@ func init() {
 	register(&Check{ID: "C20", Seq: runXor,
 		Rule: "full enumeration: len(a), len(b) in 0..72 (thorough 0..136) independently x start offsets mod 8 of a, b, dst (quick {0,1,3,7}, thorough 0..7) x aliasing {none, dst==a, dst==b} x dst exactly n or n+3 long x 3 content patterns, plus all 256x256 byte values for n<=2; on the implementation this toolchain builds (xor_generic.go) and on xor_old.go compiled with its build constraint lifted; every byte of the three guarded arenas is compared",
 		Assumptions: []string{"xor_arm.go/.s cannot execute on amd64 and no emulator is installed: the ARM assembly is not covered",
-			"contents come from 3 position-dependent patterns (XOR is bitwise-independent) plus all byte pairs for n<=2"}})
+			"contents come from 6 patterns incl. zero and all-ones words (XOR is bitwise-independent) plus all byte pairs for n<=2"}})
 }
